@@ -78,11 +78,25 @@ func c19Reference(lines []string, outs []Output) bool {
 }
 
 // VerifC19: the session passes only if the reference verdict is "pass" for every step.
-func VerifC19() {
+func VerifC19() { c19Session(false) }
+
+// c19Exiting: an echo process that exits (closing its stdout) after $1 lines; natively a shell loop, under
+// the symbolic executor the echo-process model reads the same last argument.
+const c19Exiting = `i=0; while [ $i -lt $1 ] && IFS= read -r l; do printf '%s\n' "$l"; i=$((i+1)); done`
+
+// VerifC19Exit: the subprocess stops early: it echoes one or two lines and exits.  A stream that ends before
+// every expected output was seen is a failure, never a pass.
+func VerifC19Exit() { c19Session(true) }
+
+func c19Session(exits bool) {
 	verif.MapOrderInsertion(true)
 	nsteps := 1
-	if verif.Tier() > 0 {
+	if verif.Tier() > 0 && !exits {
 		nsteps = 1 + verif.Choose("steps", 2)
+	}
+	limit := 0
+	if exits {
+		limit = 1 + verif.Choose("exitAfter", 2)
 	}
 	s := &Session{DefaultTimeout: 300 * time.Millisecond}
 	var stepLines [][]string
@@ -104,8 +118,8 @@ func VerifC19() {
 		expected := 0
 		for i := 0; i < no; i++ {
 			o := Output{Pattern: c19Patterns[verif.Choose(tag+".out"+string(rune('0'+i)), len(c19Patterns))]}
-			// (quick: only the first output may be guarded)
-			if i == 0 || verif.Tier() > 0 {
+			// (quick: only the first output may be guarded; none when the process exits early)
+			if !exits && (i == 0 || verif.Tier() > 0) {
 				switch verif.Choose(tag+".guard"+string(rune('0'+i)), 3) {
 				case 1:
 					o.Guard = c19Guard(true)
@@ -126,7 +140,20 @@ func VerifC19() {
 	}
 	ctx, cancel := context.WithCancel(context.Background())
 	defer cancel()
-	err := s.Run(ctx, "", "cat")
+	var err error
+	if exits {
+		err = s.Run(ctx, "", "sh", "-c", c19Exiting, "sh", string(rune('0'+limit)))
+		// only the first `limit` lines come back
+		left := limit
+		for st := range stepLines {
+			if len(stepLines[st]) > left {
+				stepLines[st] = stepLines[st][:left]
+			}
+			left -= len(stepLines[st])
+		}
+	} else {
+		err = s.Run(ctx, "", "cat")
+	}
 	want := true
 	for st := 0; st < nsteps; st++ {
 		// (the reference works on fresh copies of the outputs: Run may mark them)
